@@ -3,11 +3,10 @@ mod error;
 pub mod manager;
 mod target_scheme;
 
-use crate::ast::{Action, Expression, Operator};
+use crate::ast::Expression;
 use error::CompileError;
 use manager::{DistributedSchemeManager, LocalSchemeManager, SchemeManager, Target};
 use std::collections::HashMap;
-use std::rc::Rc;
 use target_scheme::TargetScheme;
 
 /// Escape a string to embed it in a Scheme string literal: the result denotes exactly `input`.
@@ -61,18 +60,16 @@ pub fn compile(
     };
 
     // If the expression does not contain an explicit action, the user assumes to print and we wrap
-    // everything using And(expression, Action::Print)
-    let target = if !exp.action() {
-        Expression::Operator(Rc::new(Operator::And(
-            exp.clone(),
-            Expression::Action(Action::DefaultPrint),
-        )))
+    // everything as And(expression, implicit print). The implicit print bypasses the printers, which
+    // is only safe as the single output of a policy: an Action::DefaultPrint node written by hand is
+    // compiled as the -print it stands for.
+    if !exp.action() {
+        policy_body.push_str("(and ");
+        exp.compile(&mut policy_body, &mut *manager)?;
+        policy_body.push_str(" (print-relative-path))");
     } else {
-        exp.clone()
-    };
-
-    // Compile the expression
-    target.compile(&mut policy_body, &mut *manager)?;
+        exp.compile(&mut policy_body, &mut *manager)?;
+    }
 
     // Just the threads, for now
     let options = options
